@@ -1213,7 +1213,7 @@ func c20IDs(o *hx.Out, nseq, ngo, each int, txlock string, failEvery int) error 
 
 func genC20(o *hx.Out, r *hx.Rng, tier string, replay string) error {
 	log.SetOutput(io.Discard)
-	o.Rule = "per scenario (0-2 earlier uploads, a request of 1-3 files + commit field): the fault-free run; every file-store operation index failing in turn (create / each header write / separator / body writes / close, plus one index beyond); every database operation index failing in turn (NewUpload's begin/read/insert/commit, begin of the records transaction, each flush INSERT incl. the 990-argument boundary in the big scenarios, final commit, plus one beyond); an unexpected field and a client Abort (storage.Client) at every position; each file in turn without benchmark lines, and with a label the database refuses; a request without files; the multipart body cut at byte offsets both with intact HTTP framing and as a dropped connection (every offset in the designated scenarios; in every scenario the offsets inside each delimiter line: after CR, CRLF, the dashes, half the boundary, the complete \\r\\n--BOUNDARY, and one byte further). The same enumeration on the local-disk file store (storage/fs/local over a fresh directory; write faults as short writes; the directory is walked afterwards, every name counts). Uploads of 2-4 files with one (every position, every kind of benchmark-free content) or two files without benchmark lines, on both stores. Big uploads: a first file of 600-2000 records with pairwise distinct labels (more than 16 flushes of the database layer's 990-argument buffer inside the one records transaction), alone or followed by a small file, and then one failing step each: a later file without benchmark lines, a later file whose rows the database refuses, an abort field, an unexpected field, the client's Abort, the body cut / the connection dropped late in the big file, in the later file and in the closing delimiter, a file-store fault in the last operations and late in the big file, a database fault at a flush beyond the 16th batch, at the last flush, at the flush of Commit and at the commit; plus the intact request. After each run /search (upload>), /uploads and the file store are recorded. Plus DB.NewUpload 40 times sequentially and from 16 goroutines on one file-backed sqlite database (deferred and immediate transactions), and again with every 11th / 7th database operation failing. non-trivial = every case"
+	o.Rule = "per scenario (0-2 earlier uploads, a request of 1-3 files + commit field): the fault-free run; every file-store operation index failing in turn (create / each header write / separator / body writes / close, plus one index beyond); every database operation index failing in turn (NewUpload's begin/read/insert/commit, begin of the records transaction, each flush INSERT incl. the 990-argument boundary in the big scenarios, final commit, plus one beyond); an unexpected field and a client Abort (storage.Client) at every position; each file in turn without benchmark lines, and with a label the database refuses; a request without files; the multipart body cut at byte offsets both with intact HTTP framing and as a dropped connection (every offset in the designated scenarios; in every scenario the offsets inside each delimiter line: after CR, CRLF, the dashes, half the boundary, the complete \\r\\n--BOUNDARY, and one byte further). The same enumeration on the local-disk file store (storage/fs/local over a fresh directory; write faults as short writes; the directory is walked afterwards, every name counts). Uploads of 2-4 files with one (every position, every kind of benchmark-free content) or two files without benchmark lines, on both stores. Big uploads: a first file of 600-2000 records with pairwise distinct labels (more than 16 flushes of the database layer's 990-argument buffer inside the one records transaction), alone or followed by a small file, and then one failing step each: a later file without benchmark lines, a later file whose rows the database refuses, an abort field, an unexpected field, the client's Abort, the body cut / the connection dropped late in the big file, in the later file and in the closing delimiter, a file-store fault in the last operations and late in the big file, a database fault at a flush beyond the 16th batch, at the last flush, at the flush of Commit and at the commit; plus the intact request. After each run /search (upload>), /uploads and the file store are recorded. Plus DB.NewUpload 40 times sequentially and from 16 goroutines on one file-backed sqlite database (deferred and immediate transactions), and again with every 11th / 7th database operation failing. ID histories (tagged clock hook db.VerifSetNow): 5-12 steps of NewUpload at chosen clock readings on three consecutive UTC days (shown in several time zones, around midnight, over month/year/leap-day boundaries) where the reading is on an EARLIER day than the newest upload - the earlier day without uploads, with upload .1, with several (patterns: step back over midnight, two front ends one day apart taking turns, the earlier day has uploads before the later day starts, explicit IDs out of order via ReplaceUpload of an absent ID: same day with a lower counter / an older day, random) - each upload inserting 0-3 records and committed or aborted; after every step the result and the listing of all uploads; and 8 goroutines allocating on one database while the clock alternates between two days that both have uploads. non-trivial = every case"
 	nscen, nall, nbig, ndisk, nmixed := 6, 2, 1, 2, 1
 	each := 50
 	if tier == "thorough" {
@@ -1258,6 +1258,10 @@ func genC20(o *hx.Out, r *hx.Rng, tier string, replay string) error {
 		if err := c20IDs(o, 40, 16, each, "immediate", k); err != nil {
 			return err
 		}
+	}
+	// ID histories under a clock that steps back / two front ends with skewed clocks (c20clock.go)
+	if err := genC20Clock(o, r.Split(), tier); err != nil {
+		return err
 	}
 	return nil
 }
